@@ -318,9 +318,75 @@ def check_pack(world, children, order, ignore_dup, strict, slash, paths, encodin
     return fails
 
 
+# ---------------------------------------------------------------------------
+# one directory / pack object used several times
+# ---------------------------------------------------------------------------
+
+OPEN_OPTIONS = {"default": {}, "lenient": {"strict": False}, "strict": {"strict": True}}
+
+
+def reuse_trees():
+    return {
+        "stray ssc": {"s.ssc": content_for("s.ssc", stray=True)},
+        "clean sm": {"a.sm": content_for("a.sm")},
+        "stray sm + clean ssc": {"s.sm": content_for("s.sm", stray=True), "c.ssc": content_for("c.ssc")},
+    }
+
+
+def check_reuse(world, tree_name, history, as_pack):
+    """
+    history: option names.  The same SimfileDirectory (or SimfilePack) object is asked once per entry; every answer
+    must be what a fresh object gives for that option alone, every answer is a new simfile object, and editing
+    an earlier answer does not show in a later one.
+    """
+    fails = []
+    tree = reuse_trees()[tree_name]
+    paths = world.make({"pack": {"song": tree}})
+    try:
+        for fsname, fsobj, base in (("mem", world.mem, paths[0]), ("nat", world.nat, paths[1])):
+            fsobj.order = 0
+            tag = {"fs": fsname}
+            pdir = join(fsname, base, "pack")
+            sdir = join(fsname, pdir, "song")
+            if as_pack:
+                make = lambda: SimfilePack(pdir, filesystem=fsobj)  # noqa: E731
+                ask = lambda o, kw: [title_of(sf) for sf in o.simfiles(**kw)]  # noqa: E731
+                raw = lambda o, kw: list(o.simfiles(**kw))  # noqa: E731
+            else:
+                make = lambda: SimfileDirectory(sdir, filesystem=fsobj)  # noqa: E731
+                ask = lambda o, kw: title_of(o.open(**kw))  # noqa: E731
+                raw = lambda o, kw: [o.open(**kw)]  # noqa: E731
+            alone = {name: outcome(lambda: ask(make(), kw)) for name, kw in OPEN_OPTIONS.items()}
+            obj = make()
+            handed_out = []
+            for i, name in enumerate(history):
+                kw = OPEN_OPTIONS[name]
+                try:
+                    got_objs = raw(obj, kw)
+                    got = ("ok", [title_of(x) for x in got_objs] if as_pack else title_of(got_objs[0]))
+                except core.WatchdogTimeout:
+                    raise
+                except BaseException as e:
+                    got_objs, got = [], ("exc", type(e).__name__)
+                if got != alone[name]:
+                    fails.append({"clause": "the answer of a directory / pack object depends on how it was used before", "expected": alone[name], "observed": got, "step": i, **tag})
+                    break
+                if any(x is y for x in got_objs for y in handed_out):
+                    fails.append({"clause": "a directory / pack object hands out the same simfile object twice", "expected": "a new object per call", "observed": "shared", "step": i, **tag})
+                    break
+                for x in got_objs:
+                    x["TITLE"] = "edited by the caller"  # must not show in later answers
+                handed_out += got_objs
+    finally:
+        world.drop(*paths)
+    return fails
+
+
 def check_case(case):
     world = World()
     try:
+        if case["kind"] == "reuse":
+            return check_reuse(world, case["tree"], case["history"], case["as_pack"])
         if case["kind"] == "songdir":
             tree = {n: content_for(n) for n in case["names"]}
             paths = world.make({"song": tree})
@@ -338,6 +404,25 @@ def explore_shard(acc, shard):
     kind = shard[0]
     world = World()
     try:
+        if kind == "reuse":
+            _, tree_name, as_pack, depth = shard
+            layer = "one object used several times"
+            case = None
+            for n in range(1, depth + 1):
+                for history in itertools.product(OPEN_OPTIONS, repeat=n):
+                    case = {"kind": "reuse", "tree": tree_name, "history": list(history), "as_pack": as_pack}
+                    core.guard_cheap(acc, case)
+                    fails = check_reuse(world, tree_name, history, as_pack)
+                    acc.count("states")
+                    acc.count("transitions", n)
+                    acc.count("evaluations", 2 * n)
+                    if n >= 2:
+                        acc.count("nontrivial")
+                        acc.outcome("directory / pack object opened more than once")
+                    for f in fails:
+                        acc.violation(f["clause"], case, f["expected"], f["observed"], signature=(f["clause"], as_pack))
+            acc.sample(layer, case)
+            return
         if kind == "songdir":
             _, first, maxn = shard
             layer = "song directories"
@@ -422,11 +507,15 @@ def explore(run):
     shards.append(("pack", None, 0))
     for k in CHILD_KINDS:
         shards.append(("pack", k, pmax))
+    for t in reuse_trees():
+        for as_pack in (False, True):
+            shards.append(("reuse", t, as_pack, 4 if run.thorough() else 3))
     k = run.seed % len(shards)
     shards = shards[k:] + shards[:k]
     run.merge(core.pmap(explore_shard, shards, run.seed))
     acc = run.acc
     run.rule = (
+        f"reuse: one SimfileDirectory / SimfilePack object opened along every history of <= {4 if run.thorough() else 3} calls over (default, strict=False, strict=True) on 3 trees (every answer compared with a fresh object's); "
         f"song directories: every subset of <= {maxn} names from {NAMES} x every listing order of the entries x ignore_duplicate x trailing slash; "
         f"packs: every multiset of <= {pmax} children from {CHILD_KINDS} x every listing order (applied to the pack and to every song directory) x ignore_duplicate x strict x trailing slash x explicit encoding (when a CP932 file is present); "
         "every tree on MemoryFS and on a native temporary directory. A state is one tree; non-trivial = at least two simfiles / two children."
@@ -437,6 +526,7 @@ def explore(run):
     ]
     core.require(acc.outcomes["duplicate simfiles, error"] > 0 and acc.outcomes["duplicate simfiles, ignored"] > 0, "no duplicates")
     core.require(acc.outcomes["directory without simfile"] > 0, "no empty directory")
+    core.require(acc.outcomes["directory / pack object opened more than once"] > 0, "no reuse history")
     core.require(acc.outcomes["stray-text file opened with strict=False"] > 0, "strict option not exercised")
     core.require(acc.outcomes["explicit encoding passed down"] > 0, "encoding option not exercised")
     core.require(acc.outcomes["nested directory / loose file beside song directories"] > 0, "no nested/loose entries")
